@@ -470,6 +470,22 @@ def _invoke(ep, opts, data, f):
     raise KeyError(ep)
 
 
+def BLOCKS(tier):
+    full = tier == "thorough"
+    return {
+        "kk_fixed_log_F_ext_all_cells": {"factors": "7 tests x {Z,Y,None} x C x L x num_RC {valid, auto}", "calls": 156, "exhaustive": True},
+        "kk_full_cross": {"factors": "6 linear tests x {Z,Y,None} x C x L x {auto, fixed} num_RC x num_F_ext_evaluations {-20,-10,0,10,11,20} x rapid x 3 grids",
+                          "calls": 5184, "exhaustive": full, "run": full},
+        "kk_cnls_full_cross": {"factors": "cnls x the same factors on a 7-point spectrum, max_nfev=100", "calls": 864, "exhaustive": full, "run": full},
+        "zhit_full_cross": {"factors": "6 smoothing x 5 interpolation x {Z,Y} x {custom, boxcar, hann, auto} x 3 (num_points, polynomial_order)", "calls": 720,
+                            "exhaustive": full, "run": full},
+        "fit_cells": {"factors": "9 methods x 4 weights per circuit", "exhaustive": True},
+        "tr_nnls_lm_cells": {"factors": "tr-nnls 3 modes x 4 lambda modes x 2 max_iter; lm 5 orders x 2 order methods", "exhaustive": True},
+        "bht_cells": {"factors": "9 rbf types x 2 derivative orders x 2 shapes x num_procs {1,2}", "exhaustive": full},
+        "pairwise_models": {"note": "all other rows are greedy pairwise-covering designs over the factor levels named in the rule", "exhaustive": False},
+    }
+
+
 def _cell(ep, opts):
     """Canonical option-cell key (structural)."""
     return (ep,) + tuple(sorted((k, repr(v)) for k, v in opts.items()))
@@ -602,6 +618,10 @@ def run_call(ep, opts, f, Z, out, rseed=0):
                 bad(key, f"aborted part-way with {d['type']}: {str(exc)[:160]} at {d['where']}" + (" (raised in a pool worker)" if d["remote"] else "")
                          + f" after {trace.steps} progress steps (max i/total {trace.max_frac:.2f})", {"origin": d, "traceback": monitors.tb_tail(exc, 8)})
     out["keys"].append(_cell(ep, opts) + (("sparse" if sparse else "ordinary"), n % 2))
+    cellname = {"kk": lambda: f"test={opts.get('test', 'real')}", "zhit": lambda: f"smoothing={opts.get('smoothing', 'modsinc')}",
+                "fit": lambda: f"method={opts.get('method', 'auto') if isinstance(opts.get('method', 'auto'), str) else 'list'}",
+                "drt": lambda: f"method={name}"}[ep]()
+    bump(f"cell:{ep}:{cellname}:{outcome}")
     smp = out.setdefault("sample", None) or {}
     if outcome not in smp and len(smp) < 3:
         smp[outcome] = {"entry": name, "options": opts, "n": n, "points_per_decade": round(ppd, 2), "outcome": outcome,
